@@ -247,7 +247,7 @@ func (t *Table) chain(name string) *Chain {
 // Canonical form of a rule (independent normalisation).
 
 var protoNumber = map[string]string{"tcp": "6", "udp": "17", "icmp": "1", "vrrp": "112",
-	"ipv6-icmp": "58", "icmpv6": "58", "esp": "50", "ah": "51", "gre": "47", "ospf": "89", "all": "0"}
+	"ipv6-icmp": "58", "icmpv6": "58", "esp": "50", "ah": "51", "sctp": "132", "udplite": "136", "gre": "47", "ospf": "89", "all": "0"}
 
 type opt struct {
 	neg  bool
@@ -495,11 +495,21 @@ func KernelRule(rule string) string {
 			emit(o.neg, o.key, args...)
 		case "-p":
 			p := proto
+			// names iptables-save knows by itself (xtables_chain_protos) or
+			// finds in /etc/protocols
 			switch p {
 			case "112":
 				p = "vrrp"
 			case "58":
 				p = "ipv6-icmp"
+			case "50":
+				p = "esp"
+			case "51":
+				p = "ah"
+			case "132":
+				p = "sctp"
+			case "136":
+				p = "udplite"
 			}
 			emit(o.neg, "-p", p)
 		case "--dport", "--sport", "--syn", "--tcp-flags":
